@@ -9,5 +9,5 @@ for id in "$@"; do
   echo "$out" | grep -E "signature:|BROKEN|BUILD-FAILED" | head -6 | sed 's/^/    /'
 done
 git -C /repo checkout -- .
-(cd /verif && git checkout -- evidence 2>/dev/null; git clean -fdq replays)
+(cd /verif && git checkout -- evidence replays 2>/dev/null; git clean -fdq replays)
 git -C /repo status --short | head -3
